@@ -3,7 +3,7 @@
 set -eu
 ID=$1; SUF=$2; TAG=$ID$SUF; WT=/tmp/wt/$TAG
 mkdir -p /tmp/wt
-git -C /repo worktree add --detach -q $WT HEAD
+[ -d $WT ] || git -C /repo worktree add --detach -q $WT HEAD
 python3 - "$ID" "$TAG" "$WT" <<'PY'
 import json,sys,glob,os
 pid,tag,wt=sys.argv[1:4]
@@ -14,7 +14,9 @@ for l in open('/verif/properties.jsonl'):
 txt=f"{pid} — {prop['title']}\n\nStatement: {prop['statement']}\n\nQuantified over: {prop.get('quantifier','')}\n"
 prev=[]
 for m in sorted(glob.glob(f'/verif/seeded/{pid}*/meta*.json')):
-    try: prev.append(json.load(open(m)).get('summary',''))
+    try:
+        x=json.load(open(m)).get('summary','')
+        if x and x not in prev: prev.append(x)
     except Exception: pass
 t=open('/verif/tools/seed_prompt.tmpl').read().replace('__WT__',wt).replace('__PROP__',txt).replace('__ID__',pid)
 if prev:
